@@ -34,6 +34,11 @@ pub enum E {
     Field(Box<E>, String),
     Mem(Box<E>, Site),
     Delay(f64, Box<E>, Box<E>, Site),
+    /// array literal `[a, b, c]`
+    Array(Vec<E>),
+    /// `arr[i]` (the language does not fix the meaning of an index outside 0..len or a fractional one; the
+    /// reference interpreter answers *undefined* for arrays altogether, the implementations are compared with each other)
+    Index(Box<E>, Box<E>),
     /// `a |> f`
     Pipe(Box<E>, Box<E>, Site),
     /// redundant parentheses (layout only)
@@ -158,7 +163,7 @@ pub fn fmt_num(x: f64) -> String {
 fn is_atom(e: &E) -> bool {
     matches!(
         e,
-        E::Var(_) | E::Now | E::Sr | E::SelfV | E::Call(..) | E::CallPack(..) | E::Math(..) | E::Tuple(_) | E::Mem(..) | E::Delay(..) | E::Paren(_) | E::Block(..) | E::Record(_)
+        E::Var(_) | E::Now | E::Sr | E::SelfV | E::Call(..) | E::CallPack(..) | E::Math(..) | E::Tuple(_) | E::Mem(..) | E::Delay(..) | E::Paren(_) | E::Block(..) | E::Record(_) | E::Array(_) | E::Index(..)
     ) || matches!(e, E::Num(x) if *x >= 0.0 && !x.is_nan() && x.is_finite() && !(*x == 0.0 && x.is_sign_negative()))
 }
 fn pa(e: &E, ind: usize) -> String {
@@ -229,6 +234,8 @@ pub fn pe(e: &E, ind: usize) -> String {
         E::Lambda(ps_, b) => format!("|{}| {}", if ps_.is_empty() { " ".to_string() } else { ps_.join(",") }, pa(b, ind)),
         E::Tuple(es) => format!("({})", es.iter().map(|a| pe(a, ind)).collect::<Vec<_>>().join(", ")),
         E::Proj(a, i) => format!("{}.{i}", pa(a, ind)),
+        E::Array(es) => format!("[{}]", es.iter().map(|a| pe(a, ind)).collect::<Vec<_>>().join(", ")),
+        E::Index(a, i) => format!("{}[{}]", pa(a, ind), pe(i, ind)),
         // a first field named "<-" holds the record being updated: `{base <- a = e, ..}`
         E::Record(fs) if fs.first().map(|(k, _)| k == "<-").unwrap_or(false) => {
             format!("{{{} <- {}}}", pe(&fs[0].1, ind), fs[1..].iter().map(|(k, v)| format!("{k} = {}", pe(v, ind))).collect::<Vec<_>>().join(", "))
@@ -747,6 +754,7 @@ impl<'p> Interp<'p> {
             }
             E::Paren(a) => self.eval(a, env, node, selfv)?,
             E::Raw(_) => return Err(EvalErr::Undefined("raw text".into())),
+            E::Array(_) | E::Index(..) => return Err(EvalErr::Undefined("arrays are outside the core language the reference defines".into())),
         })
     }
 }
